@@ -335,7 +335,7 @@ impl<const P: u16> FloatConst for Jet<P> {
     }
 }
 
-#[cfg(test)]
+#[cfg(all(test, not(feature = "sdp")))]
 mod tests {
     use super::*;
     use clarabel::algebra::FloatT;
